@@ -204,6 +204,64 @@ func c14R2(c *Ctx) {
 	reFiles := regexp.MustCompile(`^φslice⟨\[\]\[:0\] \| append\(φslice, \[lang\.InputFile\{Name: "<stdin>", Reader: Stdin\}\]\[:\]\) \| append\(φslice, \[lang\.InputFile\{Name: (.+)\[i@(.+)\], Reader: os\.Open\((.+)\[i@(.+)\]\)#0\}\]\[:\]\)⟩$`)
 	mm := reFiles.FindStringSubmatch(files)
 	okFiles := mm != nil && mm[1] == mm[2] && mm[2] == mm[3] && mm[3] == mm[4] && strings.HasPrefix(mm[1], "phi(append(phi(flag.Args() | flag.Args()[1:] | nil), ")
+	if !okFiles {
+		// the same list built with the stdin entry outside the loop over the paths: decide on the
+		// elements that are ever appended (the list starts empty; every element is the stdin entry or
+		// {Name: paths[i], Reader: os.Open(paths[i])#0} for the index i of a range over the path list)
+		elems := map[string]bool{}
+		okBase := true
+		seen := map[ssa.Value]bool{}
+		var walk func(v ssa.Value, d int)
+		walk = func(v ssa.Value, d int) {
+			if seen[v] || d > 12 {
+				return
+			}
+			seen[v] = true
+			switch x := v.(type) {
+			case *ssa.Phi:
+				for _, e := range x.Edges {
+					walk(e, d+1)
+				}
+			case *ssa.Call:
+				if bi, ok := x.Call.Value.(*ssa.Builtin); ok && bi.Name() == "append" && len(x.Call.Args) == 2 {
+					elems[p.Render(x.Call.Args[1])] = true
+					walk(x.Call.Args[0], d+1)
+					return
+				}
+				okBase = false
+			case *ssa.MakeSlice:
+				if k, ok := constInt(x.Len); !ok || k != 0 {
+					okBase = false
+				}
+			case *ssa.Slice:
+				if r := p.Render(x); r != "[][:0]" {
+					okBase = false
+				}
+			default:
+				okBase = false
+			}
+		}
+		walk(a[1], 0)
+		reOpened := regexp.MustCompile(`^\[lang\.InputFile\{Name: (.+)\[i@(.+)\], Reader: os\.Open\((.+)\[i@(.+)\]\)#0\}\]\[:\]$`)
+		nOpened := 0
+		okElems := okBase
+		for e := range elems {
+			if e == `[lang.InputFile{Name: "<stdin>", Reader: Stdin}][:]` {
+				continue
+			}
+			// (the renderer elides a literal it has already printed once in the same term)
+			m2 := reOpened.FindStringSubmatch(strings.ReplaceAll(e, `["<stdin>"][:]`, "…[:]"))
+			if m2 != nil && m2[1] == m2[2] && m2[2] == m2[3] && m2[3] == m2[4] && strings.Contains(m2[1], "flag.Args()") {
+				nOpened++
+				continue
+			}
+			okElems = false
+		}
+		okFiles = okElems && nOpened == 1
+		if !okFiles {
+			files += fmt.Sprintf(" [elements: base ok=%v, %d opened forms, %v]", okBase, nOpened, keysOf(elems))
+		}
+	}
 	// every path that was opened successfully becomes an input: the next path is not reached without the append
 	{
 		var open_ *ssa.Call
@@ -519,13 +577,11 @@ func evaluatorConstruction(c *Ctx, rule string) {
 	installers := []installer{
 		{"runtime functions", func(fn *ssa.Function) ssa.Instruction {
 			seen := map[string]ssa.Instruction{}
-			allInstrs(fn, func(in ssa.Instruction) {
-				if mu, ok := in.(*ssa.MapUpdate); ok {
-					if k, ok := constString(mu.Key); ok && (k == "printf" || k == "json" || k == "num") {
-						seen[k] = in
-					}
+			for _, ev := range builtinRegistrations(p) {
+				if ev.at.Parent() == fn && (ev.name == "printf" || ev.name == "json" || ev.name == "num") {
+					seen[ev.name] = ev.at
 				}
-			})
+			}
 			if len(seen) == 3 {
 				return seen["printf"]
 			}
